@@ -52,10 +52,13 @@ CORNER_FACE_VALUE_IS_VIOLATION = False
 
 # `NumbaBackend.make_inserter(grid, with_ghost_cells=True)` looks up the cell volume at the index that
 # was already shifted by the ghost cell: wrong amount on grids with non-uniform cell volumes and an
-# out-of-bounds index in the last cell (IndexError in mode I).  Reported by the check author; the
-# clause is evaluated in mode I for points whose deposit lies entirely in valid cells, counted as an
-# outcome class, and only turned into a violation if this switch is set.
-GHOST_INSERTER_IS_VIOLATION = False
+# out-of-bounds index in the last cell (IndexError in mode I, unchecked read under JIT).  Genuine
+# defect (to be listed as a known finding).  Its violations carry the marker below in the signature,
+#   C16|<kind><d>d|rank<r>|insert|inserter with ghost cells (non-uniform cell volumes) deposits a wrong amount
+#   C16|<kind><d>d|rank<r>|insert|inserter with ghost cells (non-uniform cell volumes) raises IndexError
+# so that they are distinct from the default inserter (with_ghost_cells=False) and from the inserter
+# with ghost cells on grids with uniform cell volumes, which are both checked strictly.
+GHOST_NONUNIFORM = "inserter with ghost cells (non-uniform cell volumes)"
 
 
 # ----------------------------------------------------------------------------------------------
@@ -667,7 +670,7 @@ def _lattice_case(case):
                        pt(idx), [name], extra={"affine_bc_axis": a})
 
     # ---- interpolate_to_grid: same grid class with one more cell per axis (scalar fields) ----------
-    if rank == 0 and not explicit and not partial:
+    if rank == 0 and not partial and (not explicit or case.get("togrid")):
         spec2 = json.loads(json.dumps(spec))
         if spec2[0] == "unit":
             spec2 = ["cart", [[0, n] for n in shape], [n + 1 for n in shape], list(per)]
@@ -688,7 +691,8 @@ def _lattice_case(case):
             E = np.tensordot(E, axis_weights(np, us2[a], shape[a], per[a], bck), axes=([0], [1]))
         n_points += E.size
         if res.data.shape != E.shape or not np.all(np.abs(res.data - E) <= 4 * TOL * max(1.0, float(np.abs(E).max()))):
-            report("interpolate_to_grid differs from the reference interpolant", f"target {grid_name(spec2)}", us, ["generic"])
+            report("interpolate_to_grid differs from the reference interpolant", f"target {grid_name(spec2)}",
+                   [[u[0]] for u in us], ["generic"], extra={"togrid": True})
         outs.add("interpolate_to_grid compared")
 
     # ---- recorded values of the other execution mode (replay of a mode-J/mode-I difference) -------
@@ -792,7 +796,11 @@ def _insert_case(case):
     inserter = get_backend("numba").make_inserter(grid)
     from mc import core as _core
 
-    inserter_g = get_backend("numba").make_inserter(grid, with_ghost_cells=True) if _core.mode() != "J" else None
+    uniform = geo["kind"] in ("unit", "cart")
+    # under JIT the out-of-bounds volume index on non-uniform grids is an unchecked memory read: mode I only
+    # (and one more compilation: under JIT only where the case asks for it, uniform volumes only)
+    with_g = _core.mode() != "J" or (uniform and case.get("ghost_j"))
+    inserter_g = get_backend("numba").make_inserter(grid, with_ghost_cells=True) if with_g else None
     lo, dx = [b[0] for b in geo["bounds"]], geo["dx"]
     keys = set()
     for u in itertools.product(*us):
@@ -836,22 +844,37 @@ def _insert_case(case):
             report("backend inserter differs from field.insert", f"u={list(u)} x={x.tolist()}: at {k} inserter {data2[k]!r} "
                    f"field.insert {h0.data[k]!r}", u)
         outs.add("edge point conserved" if edge else "interior point conserved")
-        # inserter working on the padded array; compared where the whole deposit lies in valid cells
-        if inserter_g is not None and all(per[a] or 0.5 <= u[a] <= shape[a] - 0.5 for a in range(d)):
-            hf = cls(grid)
-            n += 1
-            try:
-                inserter_g(hf._data_full, x, amt_arg if rank == 0 else amount)
-                same = bool(np.all(np.abs(hf.data - h0.data) <= TOL_INS * float(np.abs(h0.data).max())))
-                how = "differs from field.insert"
-            except IndexError:
-                same, how = False, "raises IndexError"
-            if same:
-                outs.add("inserter with ghost cells: equals field.insert (bulk points)")
-            else:
-                outs.add(f"inserter with ghost cells: {how} (cell volume looked up at the shifted index)")
-                if GHOST_INSERTER_IS_VIOLATION:
-                    report(f"inserter with ghost cells {how}", f"u={list(u)} x={x.tolist()}", u)
+        # inserter working on the padded array (with_ghost_cells=True)
+        if inserter_g is None:
+            continue
+        bulk = all(per[a] or 0.5 <= u[a] <= shape[a] - 0.5 for a in range(d))  # whole deposit in valid cells
+        if not (bulk or uniform):
+            continue  # boundary strip on non-uniform volumes: a ghost cell has no volume - no oracle
+        hf = cls(grid)
+        n += 1
+        try:
+            inserter_g(hf._data_full, x, amt_arg if rank == 0 else amount)
+        except IndexError:
+            if uniform:
+                raise
+            outs.add(f"{GHOST_NONUNIFORM} raises IndexError")
+            report(f"{GHOST_NONUNIFORM} raises IndexError", f"u={list(u)} x={x.tolist()} (cell volume looked up at the shifted index)", u)
+            continue
+        if bulk:
+            same = bool(np.all(np.abs(hf.data - h0.data) <= TOL_INS * float(np.abs(h0.data).max())))
+        else:  # uniform volumes, boundary strip: part of the amount sits in ghost cells; the total over the padded array is the amount
+            tot = hf._data_full.reshape(tshape + (-1,)).sum(axis=-1).reshape(tshape) * float(vol.flat[0])
+            same = bool(np.all(np.abs(tot - amount) <= TOL_INS * amax))
+        if same:
+            outs.add("inserter with ghost cells: equals field.insert" if bulk else "inserter with ghost cells: padded total equals the amount")
+        elif uniform:
+            report("inserter with ghost cells differs from field.insert" if bulk else
+                   "inserter with ghost cells: total over the padded array differs from the amount", f"u={list(u)} x={x.tolist()}", u)
+        else:
+            outs.add(f"{GHOST_NONUNIFORM} deposits a wrong amount")
+            got_amt = (hf.data * vol).reshape(tshape + (-1,)).sum(axis=-1).reshape(tshape)
+            report(f"{GHOST_NONUNIFORM} deposits a wrong amount", f"u={list(u)} x={x.tolist()}: integral increases by "
+                   f"{got_amt.tolist()!r}, amount {amount.tolist()!r} (cell volume looked up at the shifted index)", u)
     return {"v": viol[:6], "n": n, "keys": [f"{gname}|r{rank}|{k}" for k in sorted(keys)], "outs": sorted(outs),
             "info": {"points": n}}
 
@@ -937,7 +960,7 @@ def main(run):
             for rank, fill in variants:
                 jcases.append({"grid": spec, "rank": rank, "bc": bck, "fill": fill, "seed": run.seed,
                                "fields": ["generic", "zero", "aff0"], "ret": True})
-    jins = [{"grid": spec, "rank": r, "seed": run.seed} for spec in J_INSERT_GRIDS for r in ((0, 1) if thorough else (0,))]
+    jins = [{"grid": spec, "rank": r, "seed": run.seed, "ghost_j": thorough} for spec in J_INSERT_GRIDS for r in ((0, 1) if thorough else (0,))]
     if not only or "jit" in only:
         for c in jcases:
             c["lat"] = [[u for u, _ in axis_lattice(n, p)] for n, p in zip(geometry(c["grid"])["shape"], geometry(c["grid"])["periodic"])]
@@ -1021,7 +1044,11 @@ def main(run):
         "separate cache defect after re-linking a field into a collection is not exercised here)",
         "mode J: compiled code is compared with the values of the same worker in mode I (parent process) and with the reference; "
         "fast-math reassociation allows 1e-12",
-        "field.insert / make_inserter: only interior points are demanded (points outside are not covered by the property)",
+        "field.insert / make_inserter: only interior points are demanded (points outside are not covered by the property; "
+        "observation: field.insert accepts points up to half a cell outside, the backend inserter raises DomainError there)",
+        "make_inserter(with_ghost_cells=True): compared with field.insert where the whole deposit lies in valid cells; on uniform "
+        "volumes also in the boundary strip (total over the padded array); on non-uniform volumes evaluated in mode I only (the "
+        "defective volume index is an unchecked out-of-bounds read under JIT)",
     ]
     return (
         "all (grid, rank 0-2, bc, fill) configurations; per configuration the full product lattice of per-axis points (centres, "
